@@ -474,10 +474,10 @@ func (p *proxyConn) writeResponse(res *http.Response) error {
 		// If the event is larger than the buffer, the event will be split into multiple chunks.
 		switch {
 		case isTextEventStream(res):
-			w := newPatternFlushWriter(p.brw.Writer, p.brw.Writer, sseFlushPattern)
+			w := newPatternFlushWriter(p.brw.Writer, p.brw.Writer, sseFlushPatterns...)
 			err = res.Write(w)
 		case shouldChunk(res):
-			w := newPatternFlushWriter(p.brw.Writer, p.brw.Writer, chunkFlushPattern)
+			w := newPatternFlushWriter(p.brw.Writer, p.brw.Writer, chunkFlushPatterns...)
 			err = res.Write(w)
 		default:
 			err = res.Write(p.brw)
